@@ -437,3 +437,13 @@ theorem stream_write_aux (cap : Nat) (pad : Buf) : ∀ (f : Nat) (bytes file : B
     · simp [writeAndRecycle]
 
 end KV.Sort
+
+namespace KV.Sort
+
+theorem preadBlocks_ok {cap : Nat} (hc : 0 < cap) (n : Nat) : BlocksOK cap n (preadBlocks cap n) := by
+  unfold preadBlocks
+  by_cases h : n = 0
+  · rw [if_pos h, h]; simp [BlocksOK]
+  · rw [if_neg h]; exact (readSingleBlocks_ok hc n n (Nat.le_refl _)).1
+
+end KV.Sort
